@@ -768,6 +768,84 @@ func volumeProp(c VolumeCase, r *pbt.R) error {
 	return nil
 }
 
+// ---------------------------------------------------------------------------
+// shared-items: the items a function returns are entries of another cache, or one item serves several keys
+
+// SharedCase: sequential calls in virtual time on a memoizer whose entries live sharedLife. Calls are (key 0/1, gap in ms
+// before the call). Mode 0 (nested): the function passed for key k asks an INNER memoizer (entries never expire) for
+// the same key and returns its item; the inner computation may run once per key, however often the outer entry expires.
+// Mode 1 (one item): the functions of both keys return one and the same item object (an entry of a third cache).
+type SharedCase struct {
+	Mode  int      `json:"mode"`
+	Calls [][2]int `json:"calls"`
+}
+
+const sharedLife = 40 * time.Millisecond
+
+var sharedGaps = []int{0, 10, 30, 41, 50}
+
+func sharedProp(c SharedCase, r *pbt.R) error {
+	if len(c.Calls) > 64 {
+		return nil
+	}
+	outer := gogu.NewMemoizer[string, int](sharedLife, 0)
+	inner := gogu.NewMemoizer[string, int](cache.NoExpiration, 0)
+	one := mkItem(7)
+	names := []string{"a", "b"}
+	var computes, runs [2]int
+	var deadline [2]time.Duration // instant at which the outer entry of the key expires; 0: nothing stored yet
+	t0 := time.Now()
+	mode := ((c.Mode % 2) + 2) % 2
+	expired := false
+	for i, cl := range c.Calls {
+		k := ((cl[0] % 2) + 2) % 2
+		if cl[1] > 0 {
+			time.Sleep(time.Duration(cl[1]) * time.Millisecond)
+		}
+		now := time.Since(t0)
+		before := runs[k]
+		want := 7
+		fn := func() (*cache.Item[int], error) { runs[k]++; return one, nil }
+		if mode == 0 {
+			want = 100 + k
+			fn = func() (*cache.Item[int], error) {
+				runs[k]++
+				return inner.Memoize(names[k], func() (*cache.Item[int], error) { computes[k]++; return mkItem(100 + k), nil })
+			}
+		}
+		it, err := outer.Memoize(names[k], fn)
+		ran := runs[k] - before
+		ctx := fmt.Sprintf("memoizer with %v entries, mode %d (0: the function returns the item of an inner never-expiring memoizer; 1: both keys' functions return one item object), calls (key, gap ms) %v: call %d at %v",
+			sharedLife, mode, c.Calls[:i+1], i, now)
+		if err != nil || it == nil || it.Val() != want {
+			return fmt.Errorf("%s returned (%v, %v), want the value %d", ctx, it, err, want)
+		}
+		switch {
+		case deadline[k] > 0 && now < deadline[k]:
+			if ran != 0 {
+				return fmt.Errorf("%s ran the function although the entry of key %q lives until %v", ctx, names[k], deadline[k])
+			}
+		case deadline[k] > 0 && now == deadline[k]:
+			if ran == 1 {
+				deadline[k] = now + sharedLife
+			}
+		default:
+			if ran != 1 {
+				return fmt.Errorf("%s ran the function %d time(s), want 1: the entry of key %q expired at %v (0s: never stored) - storing another key, or the same item elsewhere, must not prolong it", ctx, ran, names[k], deadline[k])
+			}
+			if deadline[k] > 0 {
+				expired = true
+			}
+			deadline[k] = now + sharedLife
+		}
+		if mode == 0 && computes[k] != 1 {
+			return fmt.Errorf("%s: the inner computation for key %q has run %d times, want once (the inner memoizer never expires; caching its item in the outer one must not change that)", ctx, names[k], computes[k])
+		}
+	}
+	r.NonTrivialIf(expired, "a call after the outer entry expired")
+	return nil
+}
+
 func TestProp(t *testing.T) {
 	pbt.Run(t, "C17",
 		&pbt.Check[Case]{
@@ -786,6 +864,31 @@ func TestProp(t *testing.T) {
 				"every caller receives exactly what its execution produced (the empty value without an invented error), errors are not cached, the first non-empty value is served from then on without running the function. " +
 				"Enumerated: 1..4 (thorough 6) calls x every outcome pattern of that length. Non-trivial = some execution produced the empty string.",
 			Enum: zeroEnum, Prop: zeroProp,
+		},
+		&pbt.Check[SharedCase]{
+			Name: "shared-items",
+			Rule: "sequential calls in virtual time on a memoizer whose entries live 40ms, two keys, gaps from {0,10,30,41,50}ms; the functions return items that are entries elsewhere: either the item of an inner never-expiring memoizer (nested memoizers) or one item object for both keys. " +
+				"Oracle per key: no run while its entry lives, exactly one run after it expired (either at the deadline instant), the right value always; the inner computation runs once per key whatever the outer one does. " +
+				"Enumerated: both modes x every sequence of 1..4 (thorough 5) calls; random: up to 30 calls. Non-trivial = some call came after an expiry.",
+			Enum: func(s pbt.Src, thorough bool) SharedCase {
+				n := 4
+				if thorough {
+					n = 5
+				}
+				return SharedCase{Mode: s.Intn(2), Calls: pbt.Seq(s, 1, n, func(s pbt.Src) [2]int { return [2]int{s.Intn(2), sharedGaps[s.Intn(len(sharedGaps))]} })}
+			},
+			Gen: func(s pbt.Src, _ bool) SharedCase {
+				return SharedCase{Mode: s.Intn(2), Calls: pbt.Seq(s, 1, 30, func(s pbt.Src) [2]int { return [2]int{s.Intn(2), sharedGaps[s.Intn(len(sharedGaps))]} })}
+			},
+			Prop: sharedProp,
+			OutOfEnum: func(c SharedCase, thorough bool) bool {
+				if thorough {
+					return len(c.Calls) > 5
+				}
+				return len(c.Calls) > 4
+			},
+			RapidQuick: 300, RapidThorough: 5000,
+			Bubble: true,
 		},
 		&pbt.Check[VolumeCase]{
 			Name: "volume",
